@@ -12,9 +12,11 @@ package main
 import (
 	"bytes"
 	"context"
+	"crypto/rand"
 	"crypto/x509"
 	"encoding/pem"
 	"fmt"
+	"math/big"
 	"os"
 	"path/filepath"
 	"sort"
@@ -76,6 +78,23 @@ func main() {
 	}
 	goodCA := []string{"root", "root2", "rsaRoot"}
 	allKinds := []string{"root", "root2", "rsaRoot", "inter", "leaf", "selfLeaf", "selfIssuedOnly"}
+	// a CA certificate signed with its OWN key whose issuer NAME is another one: the signature checks out against itself,
+	// but it is not a self-signed root (issuer != subject) - fine for ca / signingAuthority stores, not for tsa stores
+	{
+		tmpl := *root2.Cert
+		tmpl.Subject.CommonName = "c13-own-key-other-issuer-name"
+		tmpl.SerialNumber = big.NewInt(424242)
+		tmpl.RawSubject, tmpl.RawIssuer, tmpl.SubjectKeyId, tmpl.AuthorityKeyId = nil, nil, nil, nil
+		parent := tmpl
+		parent.Subject.CommonName = "c13-somebody-else"
+		if der, err := x509.CreateCertificate(rand.Reader, &tmpl, &parent, root2.Key.Public(), root2.Key); err == nil {
+			if c, err := x509.ParseCertificate(der); err == nil && c.CheckSignatureFrom(c) == nil && !bytes.Equal(c.RawSubject, c.RawIssuer) {
+				kinds["ownKeyOtherIssuerName"] = certKind{"ownKeyOtherIssuerName", &lib.Ent{Cert: c}, true, false}
+				allKinds = append(allKinds, "ownKeyOtherIssuerName")
+				r.Event("kind-own-key-other-issuer-name-available")
+			}
+		}
+	}
 	if _, ok := kinds["leafUnverifiableAlg"]; ok {
 		allKinds = append(allKinds, "leafUnverifiableAlg", "leafUnverifiableAlg")
 	}
